@@ -12,19 +12,21 @@ import sys
 import os
 import warnings
 
+import numpy
+
 sys.path.insert(0, os.path.dirname(os.path.abspath(__file__)))
 import dlib  # noqa: E402
 
 warnings.simplefilter("ignore")
 
-from traits.api import (Any, ComparisonMode, TraitType, Dict, HasTraits, Int, List, Set, Tuple, Union, Undefined,  # noqa: E402
+from traits.api import (Any, Array, ComparisonMode, TraitType, Dict, HasTraits, Int, List, Set, Tuple, Union, Undefined,  # noqa: E402
                         Uninitialized)
 from traits.trait_notifiers import StaticTraitChangeNotifyWrapper  # noqa: E402
 from traits.trait_list_object import TraitListObject  # noqa: E402
 from traits.trait_dict_object import TraitDictObject  # noqa: E402
 
 KINDS = ["KConst", "KListCopy", "KDictCopy", "KTraitList", "KTraitDict", "KTraitSet", "KFactory", "KMethod",
-         "KTuple", "KUnion", "KEvent", "KMethodInt", "KTuple2"]
+         "KTuple", "KUnion", "KEvent", "KMethodInt", "KTuple2", "KArray"]
 MOD = 2305843009213693951
 
 
@@ -129,6 +131,8 @@ class World:
             return [-1000]
         if type(v) is int:
             return [v]
+        if isinstance(v, numpy.ndarray):
+            return [int(x) for x in v.tolist()]
         if isinstance(v, list):
             return [x if type(x) is int else -7 for x in v]
         if isinstance(v, dict):
@@ -147,6 +151,8 @@ class World:
     def value(self, v):
         if type(v) is int:
             return {"shape": 0, "parts": [[0, [v]]]}
+        if isinstance(v, numpy.ndarray):
+            return {"shape": 8, "parts": [[self.oid(v), self.content(v)]]}
         if isinstance(v, list):
             shape = 5 if isinstance(v, TraitListObject) else 1
             return {"shape": shape, "parts": [[self.oid(v), self.content(v)]]}
@@ -223,6 +229,8 @@ class World:
                 ns["_%s_default" % a] = counted_int_method(n, c)
             elif k == "KTuple":
                 ns[a] = Tuple(List(Int, list(c)), Int(t["scalar"]), **md)
+            elif k == "KArray":
+                ns[a] = Array(dtype=float, shape=(len(c),), value=[float(x) for x in c], **md)
             elif k == "KTuple2":
                 ns[a] = Tuple(List(Int, list(c)), List(Int, [t["scalar"]]), **md)
             elif k == "KUnion":
@@ -297,6 +305,11 @@ class World:
         elif dvt == 9:
             t["kind"] = "KTraitSet"
             t["content"], t["doid"] = self.content(dv), self.oid(dv)
+        elif dvt == 7 and isinstance(dv[1], tuple) and len(dv[1]) == 1 and isinstance(dv[1][0], numpy.ndarray):
+            # Array: copy_default_value(<the validated class-level array>)
+            t["kind"], t["content"], t["doid"] = "KArray", self.content(dv[1][0]), self.oid(dv[1][0])
+        elif dvt == 0 and isinstance(dv, numpy.ndarray):
+            t["kind"], t["content"], t["doid"] = "KConst", self.content(dv), self.oid(dv)
         elif dvt == 7 and declared is not None and shadow_kind is None:
             t["kind"] = "KFactory"
             t["content"] = list(declared["content"])       # what the callable returns is configuration, echoed
@@ -395,6 +408,8 @@ class World:
             return (list(content), scalar)
         if kind == "KTuple2":
             return (list(content), [scalar])
+        if kind == "KArray":
+            return [float(x) for x in content]
         return list(content)
 
     def do(self, op):
@@ -413,7 +428,18 @@ class World:
         obj = self.insts[i]
         if k == "Introspect":
             mode = op[2]
-            if mode >= 100000:
+            if mode >= 300000:
+                # the declared default as reported by obj.trait(name).default, then edited in place: a copy
+                n, code = (mode % 100000) // 100, mode % 100
+                ct = obj.trait("t%d" % n)
+                d = ct.default if ct is not None else None
+                if isinstance(d, list):
+                    d.append(900 + code)
+                elif isinstance(d, dict):
+                    d[900 + code] = code
+                elif isinstance(d, set):
+                    d.add(900 + code)
+            elif mode >= 100000:
                 # a private copy of a trait definition (also asked for with force=True), then its metadata and its
                 # default edited: no effect on anybody
                 forced = mode >= 200000
@@ -439,6 +465,10 @@ class World:
             ret = getattr(obj, a)
         elif k == "Assign":
             setattr(obj, a, self.payload(self.kind_of(i, op[2]), op[3], op[4]))
+        elif k == "Delete":
+            # counters count runs since the attribute last became unassigned
+            self.counts.pop((i, op[2]), None)
+            delattr(obj, a)
         elif k == "SetMeta":
             # metadata of a definition that add_trait gave to this instance alone
             if a not in obj._instance_traits() or a in type(obj).__dict__["__class_traits__"]:
@@ -452,7 +482,10 @@ class World:
         elif k == "Mutate":
             v = getattr(obj, a)
             x = op[3]
-            if isinstance(v, list):
+            if isinstance(v, numpy.ndarray):
+                if len(v):
+                    v[0] = x
+            elif isinstance(v, list):
                 v.append(x)
             elif isinstance(v, dict):
                 v[x] = x
